@@ -4,7 +4,9 @@
     unit `connaccept`. [tagf] is the Retry integrity tag function (AES-128-GCM in the code): every
     theorem holds for every such function. Only statements live here. *)
 From Coq Require Import List ZArith Bool.
-From V Require Import Gen.Params Lib.Hex ConnAccept.Model ConnAccept.Proofs ServerAccept.Model ServerAccept.Proofs EarlyData.Model EarlyData.Proofs.
+From V Require Import Gen.Params Lib.Hex ConnAccept.Model ConnAccept.Proofs ServerAccept.Model ServerAccept.Proofs EarlyData.Model EarlyData.Proofs
+                      AmpToken.TokenModel AmpToken.TokenProofs ServerAccept.Bridge ServerAccept.BridgeInstance.
+From V Require SentPH.Model SentPH.ProofsBase SentPH.ProofsOps2 SentPH.ProofsOps3 SentPH.ProofsMain SendStream.Model EarlyData.Compose.
 Import ListNotations.
 Open Scope Z_scope.
 
@@ -293,3 +295,120 @@ Example C13_0rtt_example :
   srv (erun true e0 [EWrite 0 0 100; EPack 1 1; EDeliver 1; EDecide true; EDeliver 1]) = [(0, 0, 0, 100); (0, 0, 0, 100)].
 Proof. split; vm_compute; reflexivity. Qed.
 Print Assumptions C13_0rtt_example.
+
+(** ---- C13 x C14: the server on token BYTES (ServerAccept composed with AmpToken.TokenModel; proof-level
+    composition of two models each tied to the code by its own unit) ---- *)
+
+(** For every byte-level server history [pre]: if the next Initial (token field [enc], from address [a]) makes the
+    server create a connection with a retry_source_connection_id, then the address is validated and [enc] is, byte for
+    byte, the token of a Retry this server sent earlier in [pre] — to the same address (same IP for UDP), for exactly the
+    original DCID [od] the connection authenticates, with exactly that Retry SCID [rs], at most maxRetryAge ago — and that
+    Retry answered an Initial without usable token from an address that had to be verified.
+    Hypotheses: the AEAD opens what this key sealed, ASN.1 round-trips, ideal ciphertext integrity — with respect to the
+    log [L] of what the server's generator sealed in [pre]. *)
+Theorem C13_retry_token_bound :
+  forall (K : Type) (prot_seal : K -> list Z -> list Z -> list Z) (prot_open : K -> list Z -> list Z -> option (list Z))
+         (marshal : rec -> list Z) (unmarshal : list Z -> option (rec * list Z)) (key : K) (addr_of : Z -> addr)
+         (maxTokenAge maxRetryAge : Z) c pre now size dcid scid enc a intact newcid s L s' n od rs v rtt e,
+  brun K prot_open unmarshal key addr_of maxTokenAge maxRetryAge c (s0, []) pre = (s, L) ->
+  oracles_correct prot_seal prot_open marshal unmarshal (sealed_of K marshal key L) ->
+  protector_ideal prot_seal prot_open (sealed_of K marshal key L) ->
+  recv c s now (SPinitial size dcid scid (classify K prot_open unmarshal key addr_of maxTokenAge maxRetryAge enc a now) a intact newcid)
+    = (s', SNewConn n od (Some rs) v rtt e) ->
+  v = true /\
+  exists nonce a0 ts cs,
+    In (nonce, Rec true (encodeRemoteAddr (addr_of a0)) ts 0 od rs) L /\
+    enc = newRetryToken (prot_seal key) marshal nonce (addr_of a0) od rs ts /\
+    same_addr (addr_of a) (addr_of a0) /\ now - ts <= maxRetryAge /\
+    exists o, In o (flat_map (to_sops K prot_open unmarshal key addr_of maxTokenAge maxRetryAge) pre) /\ retry_cause c a0 od cs o.
+Proof. exact retry_token_bound. Qed.
+Print Assumptions C13_retry_token_bound.
+
+(** A byte string this server's generator did not seal (forged, mutated, truncated, sealed under another key) never yields
+    a validated address, a retry_source_connection_id, or an original DCID other than the packet's own. *)
+Theorem C13_forged_token_unverified :
+  forall (K : Type) (prot_seal : K -> list Z -> list Z -> list Z) (prot_open : K -> list Z -> list Z -> option (list Z))
+         (marshal : rec -> list Z) (unmarshal : list Z -> option (rec * list Z)) (key : K) (addr_of : Z -> addr)
+         (maxTokenAge maxRetryAge : Z) c s L now size dcid scid enc a intact newcid s' n od rs v rtt e,
+  protector_ideal prot_seal prot_open (sealed_of K marshal key L) ->
+  (forall d, ~ sealed_token K prot_seal (sealed_of K marshal key L) key enc d) ->
+  recv c s now (SPinitial size dcid scid (classify K prot_open unmarshal key addr_of maxTokenAge maxRetryAge enc a now) a intact newcid)
+    = (s', SNewConn n od rs v rtt e) ->
+  v = false /\ rs = None /\ od = dcid.
+Proof. exact forged_token_unverified. Qed.
+Print Assumptions C13_forged_token_unverified.
+
+(** ServerAccept's token decision on the class of a token is C14's handleInitial on its bytes. *)
+Theorem C13_server_token_decision_agrees :
+  forall (K : Type) (prot_open : K -> list Z -> list Z -> option (list Z)) (unmarshal : list Z -> option (rec * list Z))
+         (key : K) (addr_of : Z -> addr) (maxTokenAge maxRetryAge : Z) c s dcid scid enc a now intact newcid,
+  hget dcid (handlers s) = None -> zmem a (refuseAddrs c) = false ->
+  zlen (invq s) < saInvalidTokenQueueCap -> zlen (retryq s) < saRetryQueueCap ->
+  saMinConnectionIDLenInitial = tok_MinConnectionIDLenInitial ->
+  match handleInitial (prot_open key) unmarshal enc dcid (addr_of a) now maxTokenAge maxRetryAge
+                      (if zmem a (verifyAddrs c) then 1 else 0) with
+  | Out k v od rs rtt =>
+      match snd (recv_initial c s dcid scid (classify K prot_open unmarshal key addr_of maxTokenAge maxRetryAge enc a now) a intact newcid) with
+      | SDrop true => k = 0
+      | SInvalidToken true => k = 1
+      | SRetry true => k = 2
+      | SNewConn _ od' rs' v' rtt' _ => k = 3 /\ od' = od /\ rs' = rs /\ v' = v /\ rtt' = rtt
+      | _ => False
+      end
+  end.
+Proof. exact decision_agrees. Qed.
+Print Assumptions C13_server_token_decision_agrees.
+
+(** non-vacuity: on a concrete history (C14's toy protector: Initial without token, Retry, token replayed from another
+    port of the same host) all hypotheses of C13_retry_token_bound hold and it names the Retry of that history *)
+Example C13_retry_token_bound_example :
+  exists nonce a0' ts cs,
+    In (nonce, Rec true (encodeRemoteAddr (bi_addr a0')) ts 0 bi_dcid [9; 9; 9; 9]) (snd bi_state) /\
+    Instance.tok0 = newRetryToken (Instance.sealI 7) Instance.marshalI nonce (bi_addr a0') bi_dcid [9; 9; 9; 9] ts /\
+    same_addr (bi_addr 1) (bi_addr a0') /\ 1400 - ts <= 500 /\
+    exists o, In o (flat_map (to_sops Z Instance.openI Instance.unmarshalI 7 bi_addr 86400 500) bi_pre) /\ retry_cause bi_cfg a0' bi_dcid cs o.
+Proof. exact bi_bound. Qed.
+Print Assumptions C13_retry_token_bound_example.
+
+(** ---- C13_0rtt_reject_no_retransmit: the client's rejection path on the TIED unit models (proof-level composition
+    of V.SentPH.Model — C06, unit sentph — and V.SendStream.Model — C01, unit sendstream; they meet at the callback
+    interface: an OnLost callback of the sent-packet handler for a STREAM frame is the stream's OLost) ---- *)
+
+(** Sent-packet handler: after DropPackets(0-RTT), in every continuation of the history, no frame of a dropped 0-RTT packet
+    is ever reported lost (or acknowledged), and none stays tracked — unless the same frame is handed to SentPacket
+    again (NoDup of the handed frame ids: a re-sent frame is a new frame, i.e. the application wrote again). *)
+Theorem C13_0rtt_reject_no_retransmit :
+  forall client validated ipn period maxPeriod rnd0 ops1 now orc ops2,
+  0 <= ipn ->
+  let st1 := SentPH.Model.run (SentPH.Model.init client validated ipn period maxPeriod rnd0) ops1 in
+  SentPH.ProofsMain.executed st1 (SentPH.Model.ODrop sph_Enc0RTT now) = true ->
+  let '(st, D, H) := SentPH.ProofsMain.history_from client validated ipn period maxPeriod rnd0
+                       (ops1 ++ (SentPH.Model.ODrop sph_Enc0RTT now, orc) :: ops2) in
+  NoDup H ->
+  forall id, In id (SentPH.ProofsOps2.ids_of (SentPH.ProofsOps3.take0rtt (SentPH.ProofsBase.pk st1 SentPH.ProofsBase.SA))) ->
+    SentPH.ProofsBase.cntcb id (SentPH.Model.sCbs st) = 0 /\ ~ In id (SentPH.ProofsMain.tracked_ids st).
+Proof. exact EarlyData.Compose.PH.zero_rtt_reject_no_callback. Qed.
+Print Assumptions C13_0rtt_reject_no_retransmit.
+
+(** Send stream: without an OnLost callback nothing is ever re-emitted — whatever else happens to the stream,
+    closeForShutdown included (it skips streams whose writing side is already closed: they keep their state, so only an
+    OnLost could make them send again): the retransmission queue stays empty, every emitted frame is new data. *)
+Theorem C13_0rtt_stream_resends_only_on_lost : forall ops s,
+  forallb EarlyData.Compose.SS.not_lost ops = true -> SendStream.Model.retransQ s = [] ->
+  SendStream.Model.retransQ (SendStream.Model.run_state s ops) = [] /\
+  exists X, SendStream.Model.emitted (SendStream.Model.run_state s ops) = SendStream.Model.emitted s ++ X /\
+            SendStream.Model.emittedNew (SendStream.Model.run_state s ops) = SendStream.Model.emittedNew s ++ X.
+Proof. exact EarlyData.Compose.SS.no_lost_no_retransmit. Qed.
+Print Assumptions C13_0rtt_stream_resends_only_on_lost.
+
+(** non-vacuity: a client sends STREAM frame 5 in a 0-RTT packet; DropPackets(0-RTT) is executable and discards exactly that
+    frame; afterwards a loss-detection timeout and an ACK-less wait never produce a callback for it *)
+Example C13_0rtt_reject_no_retransmit_example :
+  let orc : SentPH.Model.oracle := (1000, 3000, 3000) in
+  let ops1 := [(SentPH.Model.OSend sph_Enc0RTT 10 0 [5] [] 300 false false 0, orc)] in
+  let st1 := SentPH.Model.run (SentPH.Model.init true false 0 100 1000 7) ops1 in
+  SentPH.ProofsMain.executed st1 (SentPH.Model.ODrop sph_Enc0RTT 20) = true /\
+  SentPH.ProofsOps2.ids_of (SentPH.ProofsOps3.take0rtt (SentPH.ProofsBase.pk st1 SentPH.ProofsBase.SA)) = [5] /\
+  SentPH.Model.sCbs (SentPH.Model.run st1 [(SentPH.Model.ODrop sph_Enc0RTT 20, orc); (SentPH.Model.OTimeout 5000 0, orc)]) = [].
+Proof. vm_compute. repeat split. Qed.
+Print Assumptions C13_0rtt_reject_no_retransmit_example.
